@@ -3,6 +3,7 @@ CURRENT code by calling it on symbolic momenta.
 
   phi_expr, theta_expr        per-event meaning of the NumPy code of Phi(p).doit(), Theta(p).doit()
   rotz_explicit, roty_explicit  RotationZMatrix(a).as_explicit(), RotationYMatrix(a).as_explicit()
+  boostz_explicit               BoostZMatrix(b).as_explicit()
   frame_rotz_arg, frame_roty_arg   the angle arguments that compute_helicity_angles passes to
                                 RotationZMatrix / RotationYMatrix for a decaying subsystem of momentum p
   frame_beta                    the argument it passes to BoostZMatrix
@@ -41,6 +42,8 @@ Q, (Eq, xq, yq, zq) = four_vector("q")
 a = sp.Symbol("a", real=True)
 nsym = sp.Symbol("n")
 A1 = np.array([a], dtype=object)
+bsym = sp.Symbol("b", real=True)
+B1 = np.array([bsym], dtype=object)
 
 
 def scalar(expr, args, inputs):
@@ -57,14 +60,16 @@ def vector(expr, args, inputs):
     return [clean_scalar(val[0, i]) for i in range(4)]
 
 
-def mat_explicit(M):
+def mat_explicit(M, var=None, arr=None):
+    var = a if var is None else var
+    arr = A1 if arr is None else arr
     ex = M.as_explicit()
     res = []
     for i in range(4):
         row = []
         for j in range(4):
             e = sp.sympify(ex[i, j])
-            row.append(e if not e.free_symbols else scalar(e, [a, nsym], [A1, 1]))
+            row.append(e if not e.free_symbols else scalar(e, [var, nsym], [arr, 1]))
         res.append(row)
     return res
 
@@ -84,6 +89,7 @@ defs_expr = {
 defs_mat = {
     "rotz_explicit": mat_explicit(RotationZMatrix(a, n_events=nsym)),
     "roty_explicit": mat_explicit(RotationYMatrix(a, n_events=nsym)),
+    "boostz_explicit": mat_explicit(BoostZMatrix(bsym, n_events=nsym), bsym, B1),
 }
 
 # --- the helicity frame of compute_helicity_angles, 3-body topology whose isobar is (1,2) -------
